@@ -507,3 +507,62 @@ def validation_cache(check: Check, repo: Repo, rule: str = "VALIDATION-CACHE") -
                  f"all {len(work)} context.validate_* calls precede the store" if not late else
                  f"`{unparse(late[0])}` runs after the cache was published: until it returns, the schema already counts as validated with a partial error list")
     check.floor(rule, 4, "accesses to the validation cache")
+
+
+# -- a named-kind predicate on a type that may still be wrapped --------------------------------------------
+
+NAMED_KIND_PREDICATES = {
+    "is_object_type", "is_interface_type", "is_union_type", "is_enum_type", "is_scalar_type", "is_input_object_type",
+    "is_leaf_type", "is_composite_type", "is_abstract_type",
+}
+UNWRAPPERS = {"get_named_type", "get_nullable_type", "assert_named_type", "assert_nullable_type", "assert_leaf_type",
+              "assert_object_type", "assert_input_object_type", "assert_composite_type"}
+WRAPPER_TESTS = {"is_non_null_type", "is_list_type", "is_wrapping_type", "is_named_type", "is_nullable_type"}
+WRAPPED_EXEMPT = {
+    ("validation/rules/fields_on_correct_type.py", "get_suggested_type_names", "type_"):
+        "called with context.get_parent_type(), which is the named composite type of the enclosing selection set",
+    ("validation/rules/fields_on_correct_type.py", "get_suggested_field_names", "type_"):
+        "called with context.get_parent_type() (named composite type)",
+    ("validation/rules/possible_fragment_spreads.py", "PossibleFragmentSpreadsRule.enter_inline_fragment", "frag_type"):
+        "context.get_type() inside an inline fragment is the type of a NamedTypeNode type condition",
+}
+
+
+def wrapped_kind_test(check: Check, repo: Repo, mods: list, rule: str = "WRAPPED-KIND-TEST") -> None:
+    from rules.write_effect import top_heads
+    from sa.mtypes import MTypes
+
+    check.rule(
+        rule,
+        "a predicate for a *named* kind (is_input_object_type, is_leaf_type ...) applied to a value whose "
+        "static type still admits GraphQLNonNull is preceded, in the same function and on the same variable, by "
+        "a wrapper test (is_non_null_type / is_list_type / ...) or the variable was produced by an unwrapping "
+        "helper (get_named_type, get_nullable_type, assert_*): `arg: OneOfInput!` is a OneOf position although "
+        "is_input_object_type(<OneOfInput!>) is False - a rule that tests the wrapped type silently skips it",
+    )
+    mt = MTypes.get(repo)
+    n = 0
+    for mod in mods:
+        for fn in mod.functions():
+            for c in walk_body(fn):
+                if not (isinstance(c, ast.Call) and call_name(c) in NAMED_KIND_PREDICATES and len(c.args) == 1 and isinstance(c.args[0], ast.Name)):
+                    continue
+                var = c.args[0].id
+                ty = mt.type_of(c.args[0])
+                heads = top_heads(ty) if ty else set()
+                if not any(h.endswith("GraphQLNonNull") for h in heads):
+                    continue
+                n += 1
+                earlier = [
+                    x for x in walk_body(fn)
+                    if isinstance(x, ast.Call) and x.lineno <= c.lineno and x is not c and (
+                        (call_name(x) in WRAPPER_TESTS and x.args and unparse(x.args[0]) == var)
+                        or (call_name(x) in UNWRAPPERS and isinstance(parent(x), ast.Assign) and any(unparse(t) == var for t in parent(x).targets)))
+                ]
+                key = next((k for k in WRAPPED_EXEMPT if mod.rel.endswith(k[0]) and qualname_of(c) == k[1] and var == k[2]), None)
+                ok = bool(earlier) or key is not None
+                check.ob(rule, c, f"{qualname_of(c)}: {unparse(c)}", ok,
+                         (f"`{var}` was tested/unwrapped before: {unparse(earlier[0])}" if earlier else "invariant: " + WRAPPED_EXEMPT[key]) if ok else
+                         f"`{var}` may be a GraphQLNonNull wrapper here and nothing in this function unwraps or tests it first")
+    if n < 10:
+        raise AnalysisError(f"WRAPPED-KIND-TEST: only {n} sites found")
